@@ -461,3 +461,127 @@ Qed.
 
 Lemma path_text_is_path u : wf_b u = true -> path u = Some (path_bytes u).
 Proof. intros W. rewrite (path_eval u W). reflexivity. Qed.
+
+(* ---------- the file scheme, path longer than "/" ---------- *)
+(* On a file URL parse_path also (1) inserts a '/' behind a normalized drive letter that is the whole path so far,
+   (2) rewrites a drive-letter first segment "C|" to "C:", (3) collapses leading slashes of the path.  None of them
+   can happen when the path before the push is longer than one byte and does not start with "//" (true of every parsed
+   file URL): then push is exact outside the same class known_c06_7.  On the root path "/" the drive-letter quirks
+   apply (file:/// push("C|") gives file:///C:, push("C:<TAB>x") gives file:///C:/x): not covered. *)
+Definition file_path_inv (P : list N) : Prop := exists c r, P = 47 :: c :: r /\ c <> 47.
+
+Lemma nwdl_shape l : is_normalized_wdl l = true -> exists a, l = [a; 58].
+Proof.
+  unfold is_normalized_wdl, is_wdl. intros H. apply andb_true_iff in H. destruct H as [H1 H2].
+  apply andb_true_iff in H1. destruct H1 as [H1 _]. destruct l as [|a [|b [|c r]]]; try discriminate H1.
+  apply N.eqb_eq in H2. subst b. exists a. reflexivity.
+Qed.
+
+Lemma no_nwdl_behind s0 ps P chunk : nlen s0 = ps -> 1 < nlen P ->
+  is_normalized_wdl (nskipn (ps + 1) ((s0 ++ P ++ [47]) ++ chunk)) = false.
+Proof.
+  intros Hps HP. destruct (is_normalized_wdl _) eqn:E; [|reflexivity]. exfalso.
+  apply nwdl_shape in E. destruct E as [a E].
+  rewrite <- !app_assoc in E. rewrite nskipn_app_ge in E by lia. replace (ps + 1 - nlen s0) with 1 in E by lia.
+  rewrite nskipn_app_le in E by lia.
+  destruct P as [|p0 [|p1 P']]; try (cbn in HP; lia).
+  change (nskipn 1 (p0 :: p1 :: P')) with (p1 :: P') in E. cbn [app] in E.
+  inversion E as [[E1 E2]]. destruct P' as [|p2 P'']; cbn [app] in E2.
+  - inversion E2.
+  - inversion E2 as [[E3 E4]]. destruct P''; cbn [app] in E4; discriminate E4.
+Qed.
+
+Lemma ppl_seg_file dbg ps l : forall ser ss pend hh, usv_list (rev pend ++ l) ->
+  (forall chunk, is_normalized_wdl (nskipn (ps + 1) (ser ++ chunk)) = false) ->
+  parse_path_loop dbg CPathSegmentSetter STFile ps l ser ss pend hh
+  = (' (s2, hh') <~ finish_segment dbg STFile ps (ser ++ encode (seg_set STFile) (utf8_encode (rev pend ++ strip_tnl l))) ss false hh ;;
+     POk (file_path_fixup STFile ps s2, hh', [])).
+Proof.
+  induction l as [|c r IH]; intros ser ss pend hh Hu Hn.
+  - cbn [parse_path_loop strip_tnl filter]. rewrite app_nil_r in *. rewrite push_pending_enc by exact Hu. reflexivity.
+  - apply usv_list_app in Hu. destruct Hu as [Hu1 Hu2]. inversion Hu2 as [|? ? Hc Hr]; subst.
+    cbn [parse_path_loop]. unfold strip_tnl. cbn [filter]. fold (strip_tnl r). unfold not_tnl at 1.
+    destruct (is_tnl c) eqn:Et; cbn [negb].
+    + rewrite (IH _ ss [] hh) by (try exact Hr; intros chunk; rewrite push_pending_enc by exact Hu1; rewrite <- app_assoc; apply Hn).
+      cbn [rev app]. rewrite push_pending_enc by exact Hu1.
+      rewrite <- app_assoc. rewrite <- encode_app, <- utf8_encode_app. reflexivity.
+    + cbn [ctx_eqb negb andb]. rewrite andb_false_r.
+      pose proof (Hn []) as Hn0. rewrite app_nil_r in Hn0. rewrite Hn0. rewrite andb_false_r.
+      rewrite (IH ser ss (c :: pend) hh).
+      * cbn [rev]. rewrite <- app_assoc. reflexivity.
+      * cbn [rev]. rewrite <- app_assoc. apply usv_list_app. split; [exact Hu1 | constructor; assumption].
+      * exact Hn.
+Qed.
+
+Lemma fixup_id_file s0 ps c r : nlen s0 = ps -> c <> 47 -> file_path_fixup STFile ps (s0 ++ 47 :: c :: r) = s0 ++ 47 :: c :: r.
+Proof.
+  intros Hps Hc. unfold file_path_fixup. cbn [st_is_file]. rewrite <- Hps. rewrite nfirstn_app_exact, nskipn_app_exact.
+  cbn [drop_while is_slash]. change (is_slash 47) with true. cbv iota. unfold is_slash.
+  replace (c =? 47) with false by (symmetry; apply N.eqb_neq; exact Hc). reflexivity.
+Qed.
+
+Theorem parse_path_segment_exact_file dbg ps s0 P seg : nlen s0 = ps -> 1 < nlen P -> file_path_inv P ->
+  usv_list seg -> seg_skipped (strip_tnl seg) = false ->
+  parse_path dbg CPathSegmentSetter STFile true ps (s0 ++ P ++ [47]) seg
+  = POk ((s0 ++ P ++ [47]) ++ seg_text STFile seg, true, []).
+Proof.
+  intros Hps HP (c & r & EP & Hc) Hu Hk. unfold parse_path.
+  assert (forall chunk, is_normalized_wdl (nskipn (ps + 1) ((s0 ++ P ++ [47]) ++ chunk)) = false) as Hn
+    by (intros chunk; apply no_nwdl_behind; assumption).
+  set (x := s0 ++ P ++ [47]) in *.
+  rewrite (ppl_seg_file dbg ps seg x (nlen x) [] true Hu Hn).
+  cbn [rev app]. fold (seg_text STFile seg). destruct (seg_text_not_dots STFile seg Hu Hk) as [Hd Hs].
+  assert (finish_segment dbg STFile ps (x ++ seg_text STFile seg) (nlen x) false true = POk (x ++ seg_text STFile seg, true)) as Ef.
+  { unfold finish_segment. rewrite slice_o_some by (rewrite nlen_app; lia). cbn [of_option pbind].
+    rewrite nskipn_app_exact. rewrite nfirstn_all by (rewrite nlen_app; lia). rewrite Hd, Hs.
+    replace (nlen x =? ps + 1) with false; [rewrite andb_false_r; reflexivity|].
+    symmetry. apply N.eqb_neq. unfold x. rewrite !nlen_app. change (nlen [47]) with 1. lia. }
+  rewrite Ef. cbn [pbind]. unfold x. rewrite EP. rewrite <- !app_assoc. cbn [app]. rewrite (fixup_id_file s0 ps c _ Hps Hc). reflexivity.
+Qed.
+
+Lemma fixup_len st ps s : nlen (file_path_fixup st ps s) <= nlen s + 1.
+Proof.
+  unfold file_path_fixup. destruct (st_is_file st); [|lia]. rewrite !nlen_app. change (nlen [47]) with 1.
+  assert (nlen (drop_while is_slash (nskipn ps s)) <= nlen (nskipn ps s)) as L.
+  { generalize (nskipn ps s). intros l. induction l as [|d t IH]; [cbn; lia|]. cbn [drop_while].
+    destruct (is_slash d); [rewrite nlen_cons; lia | lia]. }
+  rewrite nlen_nskipn in L. pose proof (nlen_nfirstn_le ps s). pose proof (nlen_nfirstn_le_len ps s).
+  destruct (N.le_gt_cases ps (nlen s)); [rewrite nlen_nfirstn by lia; lia | lia].
+Qed.
+
+(* on a file URL whose path is longer than "/" and not "//"-led: appended verbatim IFF outside the class *)
+Theorem push_class_exact_file dbg s0 ps P seg s' : nlen s0 = ps -> 1 < nlen P -> file_path_inv P -> usv_list seg ->
+  psm_extend_loop dbg STFile ps (s0 ++ P) [seg] = Some s' ->
+  (s' = s0 ++ push_text STFile P seg <-> known_c06_7 seg = false).
+Proof.
+  intros Hps HP Hinv Hu H. cbn [psm_extend_loop] in H. fold (seg_skipped seg) in H.
+  unfold push_text. unfold known_c06_7. destruct (seg_skipped seg) eqn:Esk; cbn [negb andb].
+  - inversion H; subst. split; reflexivity.
+  - replace ((ps + 1 <? nlen (s0 ++ P)) || (nlen (s0 ++ P) =? ps)) with true in H
+      by (rewrite nlen_app, Hps; symmetry; apply orb_true_iff; left; apply N.ltb_lt; lia).
+    replace ((1 <? nlen P) || (nlen P =? 0)) with true by (symmetry; apply orb_true_iff; left; apply N.ltb_lt; lia).
+    rewrite <- app_assoc in H. destruct (seg_skipped (strip_tnl seg)) eqn:Ek.
+    + split; [|discriminate]. intros E. exfalso.
+      destruct (parse_path dbg CPathSegmentSetter STFile true ps (s0 ++ P ++ [47]) seg) as [[[s2 hh] rem]| |] eqn:Epp;
+        cbn [unpres bindo] in H; try discriminate.
+      inversion H; subst s2. clear H. unfold parse_path in Epp.
+      rewrite (ppl_seg_file dbg ps seg _ _ [] true) in Epp by (try exact Hu; intros chunk; apply no_nwdl_behind; assumption).
+      cbn [rev app] in Epp. fold (seg_text STFile seg) in Epp.
+      set (x := s0 ++ P ++ [47]) in *.
+      assert (nlen (s0 ++ (P ++ [47]) ++ seg_text STFile seg) = nlen x + nlen (seg_text STFile seg)) as Lx
+        by (unfold x; rewrite !nlen_app; lia).
+      apply (f_equal nlen) in E. rewrite Lx in E. clear Lx.
+      unfold seg_skipped in Ek. apply orb_true_iff in Ek. destruct Ek as [Ek|Ek]; apply list_eqb_spec in Ek.
+      * rewrite (seg_text_dot STFile seg Ek) in *. rewrite finish_single_dot in Epp. cbn [pbind] in Epp.
+        assert (ends_with_byte 47 x = true) as Hex.
+        { unfold x. rewrite app_assoc. unfold ends_with_byte. rewrite rev_app_distr. reflexivity. }
+        rewrite Hex in Epp. inversion Epp; subst s'.
+        destruct Hinv as (c & r & EP & Hc). unfold x in E. rewrite EP in E. cbn [app] in E.
+        rewrite (fixup_id_file s0 ps c _ Hps Hc) in E. change (nlen [46]) with 1 in E. lia.
+      * rewrite (seg_text_dotdot STFile seg Ek) in *.
+        destruct (finish_segment dbg STFile ps (x ++ [46; 46]) (nlen x) false true) as [[s2 hh2]| |] eqn:Ef; cbn [pbind] in Epp; try discriminate.
+        apply finish_double_dot_len in Ef. inversion Epp; subst s'. pose proof (fixup_len STFile ps s2).
+        change (nlen [46; 46]) with 2 in E. lia.
+    + rewrite (parse_path_segment_exact_file dbg ps s0 P seg Hps HP Hinv Hu Ek) in H. cbn [unpres bindo] in H.
+      injection H as H1. subst s'. split; [intros _; reflexivity | intros _; rewrite <- !app_assoc; reflexivity].
+Qed.
